@@ -516,4 +516,14 @@ Section Character.
     destruct (beq r (false :: c)); [|reflexivity].
     rewrite run_phK_char by assumption. unfold all_false. apply char_pm; assumption.
   Qed.
+
+  (** ProjectorControlledPhaseShift.as_matrix is the defining phase shift *)
+  Definition pmat_src_ok (s : pmat_src) : Prop := (pm_proj s == 2)%Q /\ (pm_id s == -1)%Q.
+
+  Theorem pmat_is_shift ph s n : character ph -> pmat_src_ok s ->
+    meq n (pmat_mx ph s) (shift_spec (ph 1%Q)).
+  Proof.
+    intros H [Ha Hb] r c _ _. unfold pmat_mx, shift_spec. destruct (beq r c); [|reflexivity].
+    apply char_pm; [assumption|]. destruct (all_false c); [rewrite Ha, Hb; reflexivity|exact Hb].
+  Qed.
 End Character.
